@@ -217,7 +217,9 @@ def run_singleton_start(key):
     lead = tuple(lead)
     cplx = model in M.COMPLEX_OBS
     y = A.generic_data(seed, lead + (N, D), 'c06ss', model, complex_=cplx)
-    init1 = A.soft_affiliation(seed, (1,) * len(lead), K, N, 'c06ss', model)
+    pattern = key['pattern']          # which leading axes of the start are singleton
+    shape1 = tuple(1 if pattern[i] else lead[i] for i in range(len(lead)))
+    init1 = A.soft_affiliation(seed, shape1, K, N, 'c06ss', model, pattern)
     full = np.broadcast_to(init1, lead + (K, N)).copy()
     a, e = _call(lambda: M.fit(model, y, init1, its))
     if e is not None:
@@ -311,7 +313,10 @@ def subchecks(tier, seed):
                     continue
                 for its in (1, 3):
                     D = 2 if model == 'cbmm' else 3
-                    yield (model, lead, 2, D, 2 * (D + 2) + 2, its, seed)
-    subs.append(Sub('singleton_start', ('model', 'lead', 'K', 'D', 'N', 'its', 'seed'), ss_cases,
+                    for pattern in itertools.product((True, False), repeat=len(lead)):
+                        if not any(pattern):
+                            continue
+                        yield (model, lead, 2, D, 2 * (D + 2) + 2, its, pattern, seed)
+    subs.append(Sub('singleton_start', ('model', 'lead', 'K', 'D', 'N', 'its', 'pattern', 'seed'), ss_cases,
                     run_singleton_start))
     return subs
